@@ -77,6 +77,24 @@ func jobsFor(id, tier string) []*Job {
 	}
 	_ = wmk
 	switch id {
+	case "C14":
+		lmax := 1
+		if thorough {
+			lmax = 2
+		}
+		var ps [][]int
+		for l := 1; l <= lmax+1; l++ {
+			narrow := 0
+			if l == lmax+1 {
+				narrow = 1 // the longest history runs with narrower value ranges
+			}
+			for i := 0; i < 2; i++ {
+				for op := 0; op < 4; op++ {
+					ps = append(ps, []int{l, i, op, narrow})
+				}
+			}
+		}
+		add(split(wmk("iter", "zzverifw.H_C14_iter", ps))...)
 	case "C13":
 		kmax := 2
 		if thorough {
@@ -166,6 +184,8 @@ func assumptionsFor(id string) []string {
 		"harness oracles written from the property statement and docs (DESIGN.md Appendix B)",
 	}
 	switch id {
+	case "C14":
+		return append(common, "iterator family: <{|n| yield n * 10 + 1 if n < lim; recur(n + d)}> with lim in [-2,5], d in [1,3], start values in [-3,5] — all symbolic within those ranges", "reference = per-iterator state machine in the harness (DESIGN.md 5.14)")
 	case "C13":
 		return append(common, "steps are methods of a receiver object, literal calls, and operator calls written in chain form (.+(n)); step names are ones the Either wrapper does not define itself (DESIGN.md Appendix B, C13 domain note) — names the wrapper's own prototype chain answers (A, val, ==, S, p, keys ...) never reach the _missing proxy and are outside the domain", "failures are injected inside the callee (step(i) raises iff i == K); a raise during argument evaluation happens before the call and is not a failure of the step")
 	case "C18":
@@ -193,6 +213,14 @@ func assumptionsFor(id string) []string {
 func boundsFor(id, tier string, jobs []*Job) map[string]interface{} {
 	b := map[string]interface{}{"tier": tier}
 	switch id {
+	case "C14":
+		if tier == "thorough" {
+			b["history_length"] = "1..2 operations with the full ranges, 3 operations with narrow ranges (lim 0..2, stride 1..2, starts -1..2); + a final next on both iterators"
+		} else {
+			b["history_length"] = "1 operation with the full ranges, 2 operations with narrow ranges (lim 0..2, stride 1..2, starts -1..2); + a final next on both iterators"
+		}
+		b["operations"] = "next, list chain @{|x| x}, A, replace by gen.new(a) — on either of two iterators made from one literal (solver choices)"
+		b["symbolic"] = "limit, stride, every start value (small ranges so that chains terminate within 12 elements)"
 	case "C13":
 		if tier == "thorough" {
 			b["chain_length"] = "1..3 steps"
@@ -254,6 +282,8 @@ func boundsFor(id, tier string, jobs []*Job) map[string]interface{} {
 
 func outsideFor(id string) []string {
 	switch id {
+	case "C14":
+		return []string{"built-in iterators (arrIter/mapIter/rangeIter/intIter keep progress in closure variables; the statement is about iterator literals)", "iterator bodies outside the family (several yields, yields in nested calls)", "reduce chains over iterators", "more than two live iterators", "strides <= 0 (non-terminating chains)"}
 	case "C13":
 		return []string{"infix spelling of operators on the wrapper (`v.try + 1` is not a `.f` step and does not go through the proxy)", "step names defined by the wrapper's own prototype chain", "chains longer than the bound", "errors raised while evaluating a step's arguments", "user-defined error types"}
 	case "C18":
